@@ -5,6 +5,7 @@ import (
 	"fmt"
 	"io"
 	"net"
+	"os"
 	"strings"
 	"sync"
 	"sync/atomic"
@@ -746,6 +747,9 @@ func TestC10(t *testing.T) {
 		if i%10 == 6 {
 			c10broadcastSamePort(rep, seed, i)
 		}
+		if i%10 == 1 {
+			c10deviceHandles(rep, seed, i)
+		}
 		if rep.NViolations() > 4 {
 			break
 		}
@@ -1403,4 +1407,111 @@ func c10broadcastSamePort(rep *vh.Report, seed uint64, idx int) {
 	} else if missSame+missOther > 0 {
 		rep.Observe(fmt.Sprintf("c10 broadcast same-port: %d of %d datagrams not seen (kernel loss?)", missSame+missOther, len(want)))
 	}
+}
+
+// c10device is a byte source shared by all the handles opened on it (a serial line, a character device, a FIFO).
+type c10device struct{ wire chan []byte }
+
+// c10handle behaves like a file opened on the device: Close makes later reads fail but does not interrupt the read that is
+// pending, which returns when the next bytes arrive.
+type c10handle struct {
+	dev    *c10device
+	closed int32
+}
+
+func (h *c10handle) Read(p []byte) (int, error) {
+	if atomic.LoadInt32(&h.closed) != 0 {
+		return 0, os.ErrClosed
+	}
+	return copy(p, <-h.dev.wire), nil
+}
+func (h *c10handle) Write(p []byte) (int, error) { return len(p), nil }
+func (h *c10handle) Close() error                { atomic.StoreInt32(&h.closed, 1); return nil }
+
+// c10deviceHandles: a node is closed and another one is started on a new handle of the same device, several times. The
+// peer goes on sending (so a Close that waits for the pending read gets its bytes). Every frame that arrives after Close
+// has returned and the next life's channel is open surfaces in that life, on that channel.
+func c10deviceHandles(rep *vh.Report, seed uint64, idx int) {
+	if aborted() {
+		return
+	}
+	r := vh.Sub(seed, fmt.Sprintf("c10-device-%d", idx))
+	hookReset(r.U64(), false, false)
+	dev := &c10device{wire: make(chan []byte)}
+	feed := func(b []byte, d time.Duration) bool {
+		select {
+		case dev.wire <- b:
+			return true
+		case <-time.After(d):
+			return false
+		}
+	}
+	lives := 3 + r.Intn(3)
+	for life := 0; life < lives; life++ {
+		node := &gomavlib.Node{Endpoints: []gomavlib.EndpointConf{gomavlib.EndpointCustom{ReadWriteCloser: &c10handle{dev: dev}}}, Dialect: testDialect,
+			OutVersion: gomavlib.V2, OutSystemID: 10, HeartbeatDisable: true}
+		if err := node.Initialize(); err != nil {
+			rep.HarnessError(err.Error())
+			return
+		}
+		cons := newConsumer(rep, "C10", "custom-device", node)
+		cons.start()
+		if !cons.waitOpen(1, 2*time.Second) {
+			rep.Violation("what=no-open ep=custom-device", fmt.Sprintf("life %d on a new handle of the device: no open event", life), nil)
+			safeClose(rep, node)
+			return
+		}
+		ci := cons.openChannels()[0]
+		nf := 2 + r.Intn(4)
+		var want []uint64
+		for i := 0; i < nf; i++ {
+			uid := uint64(0xDE)<<56 | uint64(life)<<32 | uint64(i+1)
+			if !feed(uidFrame(uid, byte(i), 7, false, nil, 0), 3*time.Second) {
+				rep.Violation("what=lost ep=custom-device", fmt.Sprintf("life %d: nobody reads the device", life), nil)
+				safeClose(rep, node)
+				return
+			}
+			want = append(want, uid)
+			// (one by one: the next frame is sent once this one has surfaced, or not at all)
+			if !waitFor(func() bool { return len(cons.snapshot(ci).UIDs) >= len(want) }, cons.nEvents, 2*time.Second) {
+				break
+			}
+		}
+		got := cons.snapshot(ci).UIDs
+		rep.Eval(1)
+		rep.Count("device_handle_lives", 1)
+		if !eqU64(got, want) {
+			rep.Violation("what=lost ep=custom-device", fmt.Sprintf("life %d of %d on a new handle of the same device (the earlier nodes were closed): %d frame events for %d valid frames that arrived after the channel had opened", life+1, lives, len(got), len(want)),
+				map[string]interface{}{"got": got, "want": want})
+		}
+		// Close; the peer goes on sending: if Close still waits after a while, something arrives for the pending read
+		closed := make(chan struct{})
+		kicked := make(chan struct{})
+		go func() {
+			defer close(kicked)
+			for k := 0; ; k++ {
+				select {
+				case <-closed:
+					return
+				case <-time.After(30 * time.Millisecond):
+					select {
+					case dev.wire <- uidFrame(uint64(0xDF)<<56|uint64(life)<<32|uint64(k), 0, 7, false, nil, 0):
+					case <-closed:
+						return
+					}
+				}
+			}
+		}()
+		ok := safeClose(rep, node)
+		close(closed)
+		<-kicked
+		if !ok {
+			return
+		}
+		<-cons.done
+		if !eqU64(got, want) {
+			return
+		}
+	}
+	rep.Distinct("device-handles", idx, lives)
 }
